@@ -177,11 +177,15 @@ static void genSP(SplitMix &g, long long count) {
 }
 
 // ------------------------------------------------------------------ run
+// bins without cells are omitted: spread_bin / the loop body of spreadCoordX/Y is a no-op for them (grids of 10^5 bins occur)
 static void printBins(const HierarchicalDensityPlacement &hp, bool xdir) {
-  printf("%d", hp.nbBinsX() * hp.nbBinsY());
+  int nonEmpty = 0;
+  for (int i = 0; i < hp.nbBinsX(); ++i) for (int j = 0; j < hp.nbBinsY(); ++j) if (!hp.binCells_[i][j].empty()) ++nonEmpty;
+  printf("%d", nonEmpty);
   for (int i = 0; i < hp.nbBinsX(); ++i) for (int j = 0; j < hp.nbBinsY(); ++j) {
-    int lo = xdir ? hp.binLimitX(i) : hp.binLimitY(j), hi = xdir ? hp.binLimitX(i + 1) : hp.binLimitY(j + 1);
     const auto &c = hp.binCells_[i][j];
+    if (c.empty()) continue;
+    int lo = xdir ? hp.binLimitX(i) : hp.binLimitY(j), hi = xdir ? hp.binLimitX(i + 1) : hp.binLimitY(j + 1);
     printf(" %d %d %d", lo, hi, (int)c.size()); for (int x : c) printf(" %d", x);
   }
 }
@@ -355,7 +359,7 @@ int main(int argc, char **argv) {
     else if (what == "spread") genSP(g, count);
     return 0;
   }
-  vh_install(); vh_silence();
+  vh_install(); if (!getenv("C06_VERBOSE")) vh_silence();   // C06_VERBOSE=1: keep the library's progress output (debugging)
   std::string line;
   while (std::getline(std::cin, line)) {
     if (line.size() < 3) { printf("\n"); continue; }
